@@ -339,3 +339,44 @@ def c17_exon_ids(tier, rng):
                 "obligation": "C17.exon_ids_second_run", "inputs": {"seed": base + k}, "observed": p[:3], "required": "exon ids functional, preserved, injective",
                 "replay_call": "contracts.c_id_policy:replay_exon_ids"}]}
     return {"cases": n, "bound": "%d random reference / request sets" % n, "violations": [], "samples": [{"seed": base}]}
+
+
+# ---- the extended annotation of a reference sequence: every transcript once, whether or not the sequence has annotated genes -------------------------
+@_finite("C17.extended_storage_once", ["C17", "C03"], note="the real create_extended_storage over a real (in-memory gffutils) annotation with genes on chrA and none "
+        "on ctgB, for 0-3 novel models per sequence: the models handed to the printer of extended_annotation.gtf are the reference transcripts of "
+        "the sequence and the novel models, every transcript id exactly once")
+def c17_extended_storage_once(tier, rng):
+    import gffutils
+    tp = native.repo_import("src/transcript_printer.py")
+    gi_mod = native.repo_import("src/gene_info.py")
+    gtf = []
+    for g, t, ex in (("G1", "T1", [(1001, 1200), (1501, 1700), (2501, 2800)]), ("G1", "T2", [(1001, 1200), (2501, 2800)]), ("G2", "T3", [(5001, 5400)])):
+        if not any('gene_id "%s"' % g in l and "\tgene\t" in l for l in gtf):
+            gtf.append('chrA\tsyn\tgene\t%d\t%d\t.\t+\t.\tgene_id "%s";' % (1001 if g == "G1" else 5001, 2800 if g == "G1" else 5400, g))
+        gtf.append('chrA\tsyn\ttranscript\t%d\t%d\t.\t+\t.\tgene_id "%s"; transcript_id "%s";' % (ex[0][0], ex[-1][1], g, t))
+        for a, b in ex:
+            gtf.append('chrA\tsyn\texon\t%d\t%d\t.\t+\t.\tgene_id "%s"; transcript_id "%s";' % (a, b, g, t))
+    db = gffutils.create_db("\n".join(gtf) + "\n", ":memory:", from_string=True, merge_strategy="error", disable_infer_genes=True,
+                            disable_infer_transcripts=True, keep_order=True)
+    seq = "A" * 9000
+    obl = dis = 0
+    viol = []
+    for chr_id, refs in (("chrA", ["T1", "T2", "T3"]), ("ctgB", [])):
+        for n in range(4):
+            obl += 1
+            novel = [gi_mod.TranscriptModel(chr_id, "+", "transcript%d.%s.nnic" % (k + 1, chr_id), "novel_gene_%s_%d" % (chr_id, k),
+                                            [(100 + 1000 * k, 300 + 1000 * k), (500 + 1000 * k, 700 + 1000 * k)], gi_mod.TranscriptModelType.novel_not_in_catalog)
+                     for k in range(n)]
+            try:
+                models, _gene_info = tp.create_extended_storage(db, chr_id, seq, list(novel))
+                got = sorted(m.transcript_id for m in models)
+            except Exception as e:
+                got = "%s: %s" % (type(e).__name__, e)
+            want = sorted(refs + [m.transcript_id for m in novel])
+            if got == want:
+                dis += 1
+            else:
+                viol.append({"obligation": "C17.extended_storage_once.%s.%d_novel" % (chr_id, n), "inputs": {"sequence": chr_id, "novel_models": n},
+                             "observed": got, "required": want})
+    return {"obligations": obl, "discharged": dis, "violations": viol[:4], "cases": obl, "exhaustive": True,
+            "bound": "2 sequences (with / without annotated genes) x 0-3 novel models", "samples": [{"sequence": "ctgB", "novel_models": 2}]}
